@@ -7,7 +7,7 @@
      search <fn> <lo> <up> <tol> <max_iter> <fuel>      -> ok <root> <adapt_iters> <iters> <n_inexact>  | none
      adapt  <fn> <lo> <up> <fuel>                       -> ok <lower> <upper> <iters> <n_inexact>        | none
      auto   <lo> <up> <tol> <max_iter> <fuel> <row>...  -> ok <x0>,<x1>,... <n_inexact>                  | none
-              row = <fn>|<c0>,<c1>,...|<target>   ("-" for no couplings)
+              row = <fn>|<c0>,<c1>,...|<cond>|<target>   ("-" for no couplings)
      eval   <fn> <x>                                    -> <value> <n_inexact>
    n_inexact = number of field operations (search and function evaluation alike) whose exact rational
    result is NOT a binary64 number (odd part of the numerator > 53 bits, or a non power-of-two
@@ -66,7 +66,7 @@ let fn_of_string s : q fn =
      | _ -> failwith ("bad fn kind " ^ kind))
 let row_of_string s =
   match String.split_on_char '|' s with
-  | [f; cs; t] -> ((fn_of_string f, nums cs), q_of_string t)
+  | [f; cs; cnd; t] -> (((fn_of_string f, nums cs), q_of_string cnd), q_of_string t)
   | _ -> failwith ("bad row " ^ s)
 
 let nat s = nat_of_int (int_of_string s)
